@@ -27,7 +27,7 @@ VALUE = ['reward_plus_one', 'reward_plus_other_fee', 'out_zero', 'out_max_plus_o
 HEADER = ['pow_not_below', 'target_plus_1', 'target_minus_1', 'target_initial', 'target_parent_at_boundary',
           'target_elapsed_off_by_one', 'target_float', 'height_plus_2', 'height_same', 'height_low',
           'height_low_pure', 'reward_height_differs', 'ts_equal_parent', 'ts_before_parent', 'ts_now_plus_31',
-          'ev_summary_hash', 'ev_sample', 'ev_block_hash', 'ev_other_txs']
+          'ev_summary_hash', 'ev_sample', 'ev_block_hash', 'ev_other_txs', 'ev_fake_scrypt']
 STRUCT = ['no_txs', 'dup_tx', 'wrong_merkle', 'merkle_dup_last', 'merkle_reordered', 'merkle_one_removed',
           'unknown_parent']
 ALL = SPEND + VALUE + HEADER + STRUCT
@@ -61,7 +61,7 @@ def _finish(sim, rb, d):
     try:
         blk = seal(view, d['height'], d['prev'], d['ts'], d['target'], txs, merkle=d.get('merkle'),
                    evidence_height=d.get('evidence_height'), want_below=d.get('want_below', True),
-                   evidence_mut=d.get('evidence_mut'), evidence_txs=d.get('evidence_txs'),
+                   evidence_mut=d.get('evidence_mut'), evidence_txs=d.get('evidence_txs'), fake_scrypt=d.get('fake_scrypt'),
                    max_tries=d.get('max_tries', 20000))
     except KeyError:
         return None
@@ -608,6 +608,11 @@ def f_ev_sample(sim, rb, op, d, a, b):
 
 def f_ev_block_hash(sim, rb, op, d, a, b):
     d['evidence_mut'] = _ev_mut('block_hash', a + b)
+
+
+def f_ev_fake_scrypt(sim, rb, op, d, a, b):
+    """Self-consistent evidence built on a made-up scrypt result (never ran scrypt): sample and block hash fit it."""
+    d['fake_scrypt'] = b'fake%d-%d' % (a, b)
 
 
 def f_ev_other_txs(sim, rb, op, d, a, b):
